@@ -23,6 +23,16 @@ def run(prop, tier, seed, ctx):
         tlc.require_ok(res, cfg)
         ctx.add_tlc(res, "exhaustive " + cfg)
         cases += list(enumerate(res.records))
+    # deep random behaviours (tlc -simulate): files of up to nine lines with form-feed lines, up to three walks per
+    # report and eight next_section() calls; invariants evaluated by TLC along every behaviour
+    num = 40 if tier == "quick" else 1500
+    sres = tlc.run("Sections", "SIM_Sections_deep.cfg", workers=4, timeout=900, simulate="num=%d" % num, extra=["-depth", "40", "-seed", str(1000 + seed)])
+    tlc.require_ok(sres, "simulation SIM_Sections_deep.cfg")
+    ctx.add_tlc(sres, "simulation (%d behaviours) SIM_Sections_deep.cfg" % (4 * num))
+    sim = list({json.dumps(r, sort_keys=True): r for r in sres.records}.values())
+    if len(sim) < num:
+        raise MachineryError("simulation exported only %d behaviours" % len(sim))
+    cases += list(enumerate(sim))
     patterns = ["default"] if tier == "quick" else ["default", "custom"]
     mism = shard_map("bind.sections", "replay_chunk", cases, extra={"patterns": patterns})
     ctx.cov["replayed_cases"] += len(cases) * 3 * len(patterns)
